@@ -225,13 +225,16 @@ def r34(ctx, F, hub):
         some_e = oc.get('Some', set())
         if not none_e or not some_e:
             ctx.missing('C11.R3', '%s: Some/None edges of safe_join' % h)
+        # what can run after the refusal: followed along feasible paths only (the refusal may travel as a typed error through
+        # `?` and a shared `answer(w, outcome)` tail - the arm taken there is decided by what the None edge built)
         refusal = set()
-        for (s, t, lab) in none_e:
-            refusal |= cfg.reach(t)
+        for e_ in none_e:
+            refusal |= cfg.feasible_after_edge(e_)
         accept = set()
         for (s, t, lab) in some_e:
             accept |= cfg.reach(t)
         only_refusal = refusal - accept
+        shared_tail = refusal & accept
         short = h.split('::')[-1]
         # R4: no fs call on the refusal edge
         fs_here = [(bb, callee(b.blocks[bb]['term'])) for bb in only_refusal
@@ -239,18 +242,31 @@ def r34(ctx, F, hub):
         ctx.check(not fs_here, 'C11.R4', '%s:refusal-no-fs' % short, 'no fs call reachable only from the None edge',
                   'a refused request still performs %s' % [c for _, c in fs_here], term_loc(b, jb))
         # R3: reply with Response::Error through write_frame, returned to the loop
-        replies = [(wb, wt) for wb, wt in fl.calls_to('wire::write_frame') if wb in only_refusal]
-        err_reply = False
-        for wb, wt in replies:
-            if any(o.kind == 'agg' and o.key == 'wire::Response::Error' for o in fl.origins(wt['args'][1])):
-                err_reply = True
-        returns_reply = any(wt['dst']['l'] == 0 for wb, wt in replies)
+        import cfg as _cfgmod
+        err_idx = next((i for i, v in enumerate((F.adts.get('wire::Response') or {}).get('variants', [])) if v['name'] == 'Error'), None)
+
+        def is_error_reply(op_):
+            for o in fl.origins(op_):
+                if o.kind == 'agg' and o.key == 'wire::Response::Error':
+                    return True
+                if o.kind == 'call' and err_idx is not None and _cfgmod.FN_VARIANT.get(str(o.key)) == err_idx and (F.body(str(o.key)) is not None) and \
+                        'wire::Response' in (F.body(str(o.key)).local_ty(0) or ''):
+                    return True         # `Response::from(why)` of a conversion that always builds Response::Error
+            return False
+        # a conversion call in the refusal region that always builds Response::Error (`Response::from(why)`, resolved callee)
+        conv = [bb for bb in refusal if b.blocks[bb]['term']['k'] == 'call' and err_idx is not None and
+                _cfgmod.FN_VARIANT.get(callee_resolved(b.blocks[bb]['term']) or '') == err_idx and 'wire::Response' in b.local_ty(b.blocks[bb]['term']['dst']['l'])]
+        replies = [(wb, wt) for wb, wt in fl.calls_to('wire::write_frame') if wb in only_refusal or (wb in shared_tail and is_error_reply(wt['args'][1])) or
+                   (wb in refusal and any(cfg.dominates(cb_, wb) for cb_ in conv))]
+        err_reply = any(is_error_reply(wt['args'][1]) or any(cfg.dominates(cb_, wb) for cb_ in conv) for wb, wt in replies)
+        ret_o = {(o.kind, str(o.key), o.bb) for o in fl.origins(0)}
+        returns_reply = any(wt['dst']['l'] == 0 or ('call', 'wire::write_frame', wb) in ret_o for wb, wt in replies)
         if short == 'handle_put':
             drained = False
             u64s = [i for i in range(1, b.argc + 1) if b.local_ty(i) == 'u64']
             len_i = u64s[0] if len(u64s) == 1 else param_index(b, 'len')     # the declared content length: handle_put's only u64 parameter
             for cb, ct in fl.calls_to('std::io::copy'):
-                if cb not in only_refusal:
+                if cb not in refusal:
                     continue
                 from rules.C12 import reader_sources
                 so = reader_sources(fl, ct['args'][0])
@@ -260,8 +276,15 @@ def r34(ctx, F, hub):
                         ro = call_arg_origins(fl, o.bb, 0)
                         if request_value(F, b, lo, 'u64') and \
                            any(x.kind == 'param' and 'mut R' in b.local_ty(x.key) for x in ro if x.kind == 'param'):
-                            if all(fl.guarded_by(wb, cb, 'Ok') for wb, _ in replies) and replies:
-                                drained = True
+                            ok_e = fl.outcomes(cb).get('Ok', set())
+                            if replies and ok_e:
+                                # from the refusal, every way to a reply passes the Ok edge of the drain (the reply itself may be
+                                # a tail shared with other refusals - only the ways that start at the None edge count)
+                                around = set()
+                                for e_ in none_e:
+                                    around |= cfg.feasible_after_edge(e_, cut_edges=list(ok_e))
+                                if not any(wb in around for wb, _ in replies):
+                                    drained = True
             ctx.check(drained and err_reply and returns_reply, 'C11.R3', 'handle_put:drain-then-error-reply',
                       'io::copy(r.take(len), sink) Ok guards the Error reply; reply result returned',
                       'a refused Put does not consume exactly its `len` content bytes before replying (drained=%s, error reply=%s, returned=%s): '
